@@ -18,7 +18,23 @@ CONTAINERS = [
     ("range_slice", "", "v.slice(0..v.len())", False),
     ("vec_value", "", "mk(len)", False),
     ("ref_slicemut", "let s = v.as_mut_slice();", "&s", False),
+    # proper sub-ranges [lo, hi) of the vector (the last element of the tuple marks a windowed container)
+    ("sub_slice", "let s = v.slice(lo..hi);", "&s", False, True),
+    ("sub_slicemut", "let mut s = v.slice_mut(lo..hi);", "&mut s", True, True),
+    ("sub_index", "let s = v.index(lo..hi);", "&s", False, True),
+    ("sub_index_mut", "let mut s = v.index_mut(lo..hi);", "&mut s", True, True),
+    ("sub_split", "let (_, r) = v.as_slice().split_at(lo); let (s, _) = r.split_at(hi - lo);", "&s", False, True),
+    ("sub_split_mut", "let (_, r) = v.as_mut_slice().split_at_mut(lo); let (mut s, _) = r.split_at_mut(hi - lo);", "&mut s", True, True),
 ]
+
+
+def window(container, n):
+    """the window [lo, hi) of a vector of n elements a container expression denotes"""
+    if len(CONTAINERS[container]) > 4:
+        lo = min(1, n); hi = max(lo, n - 1)
+        return lo, hi
+    return 0, n
+
 # external expression kinds: (name, expr template with {e}, item type, deref prefix)
 EXTERNALS = [
     ("ref", "&{e}", "&i32"),
@@ -26,7 +42,7 @@ EXTERNALS = [
     ("value", "{e}.clone()", "i32"),
     ("range", "({b}..{b} + {e}.len() as i32)", "i32"),
 ]
-EXT_LEN = {"shorter": "len.saturating_sub(1)", "equal": "len", "longer": "len + 2"}
+EXT_LEN = {"shorter": "wl.saturating_sub(1)", "equal": "wl", "longer": "wl + 2"}
 
 
 class Form:
@@ -47,13 +63,16 @@ class Form:
                 "externals": [(EXTERNALS[k][0], l) for k, l in self.exts]}
 
     def ext_len(self, k, n):
+        lo, hi = window(self.container, n)
+        n = hi - lo
         l = self.exts[k][1]
         return max(n - 1, 0) if l == "shorter" else n if l == "equal" else n + 2
 
     def model_line(self, n):
         sel = ",".join(("mut:" if m else "") + f for f, m in self.sels)
         ext = ",".join(str(self.ext_len(k, n)) for k in range(len(self.exts)))
-        return f"zip len={n} sel={sel} ext={ext}"
+        lo, hi = window(self.container, n)
+        return f"zip len={hi - lo} off={lo} total={n} sel={sel} ext={ext}"
 
     def rust_fn(self):
         c = CONTAINERS[self.container]
@@ -69,12 +88,12 @@ class Form:
                 ty = "InRefMut<'_>" if m else "InRef<'_>"
                 shows.append(f"format!(\"{{}}:{{}}\", *t{j}.x, *t{j}.y)")
                 if m: writes.append(f"*t{j}.x += 1; *t{j}.y += 2;")
-                oracle_parts.append("format!(\"{}:{}\", v.n.x[i], v.n.y[i])")
+                oracle_parts.append("format!(\"{}:{}\", v.n.x[lo + i], v.n.y[lo + i])")
             else:
                 ty = ("&mut " if m else "&") + FTYPE[f]
                 shows.append(f"format!(\"{{}}\", *t{j})")
                 if m: writes.append(f"*t{j} += 1;")
-                oracle_parts.append(f"format!(\"{{}}\", v.{f}[i])")
+                oracle_parts.append(f"format!(\"{{}}\", v.{f}[lo + i])")
             body.append(f"let {'mut ' if (m and f == 'n') else ''}t{j}: {ty} = t{j};")
         for k, (ek, _) in enumerate(self.exts):
             j = len(self.sels) + k
@@ -84,16 +103,18 @@ class Form:
             oracle_parts.append(f"format!(\"{{}}\", e{k}[i])")
         ext_decl = "\n".join(
             f"        let e{k}: Vec<i32> = (0..{EXT_LEN[l]}).map(|i| {1000 * (k + 1)} + i as i32).collect();" for k, (_, l) in enumerate(self.exts))
-        min_terms = ["len"] + [f"e{k}.len()" for k in range(len(self.exts))]
+        min_terms = ["wl"] + [f"e{k}.len()" for k in range(len(self.exts))]
         oracle_writes = []
         for f, m in self.sels:
             if not m: continue
-            if f == "n": oracle_writes.append("w.n.x[i] += 1; w.n.y[i] += 2;")
-            else: oracle_writes.append(f"w.{f}[i] += 1;")
+            if f == "n": oracle_writes.append("w.n.x[lo + i] += 1; w.n.y[lo + i] += 2;")
+            else: oracle_writes.append(f"w.{f}[lo + i] += 1;")
         return f"""
 fn form_{self.fid}() {{
     for len in 0..=5usize {{
         let mut v = mk(len);
+        let (lo, hi): (usize, usize) = {"(std::cmp::min(1, len), std::cmp::max(std::cmp::min(1, len), len.saturating_sub(1)))" if len(c) > 4 else "(0, len)"};
+        let wl = hi - lo;
 {ext_decl}
         // oracle: index loop over the public field arrays
         let m = *[{', '.join(min_terms)}].iter().min().unwrap();
